@@ -125,7 +125,7 @@ class Check(common.Check):
     LEAN_TARGETS = ['Sc3Verif.C05.Props']
     LEAN_DIRS = ['Sc3Verif/C05']
     THEOREMS = ['Sc3Verif.C05.' + t for t in (
-        'logical_time_exact', 'reach_exact', 'resume_reads_scheduled_time', 'child_starts_at_parent_time',
+        'logical_time_exact', 'every_resumption_reads_start_plus_deltas', 'reach_exact', 'resume_reads_scheduled_time', 'child_starts_at_parent_time',
         'nrt_time_monotone', 'nrt_step_sets_time', 'nrt_elapsed_ends_at_last',
         'nrt_nothing_pending_in_the_past', 'rt_never_early', 'init_exact', 'init_good')]
     N_QUICK = 200
